@@ -101,6 +101,10 @@ const C06_EXT: &[&str] = &[
     "b", "a", "", "é", "z", "Z", "a b", "0", "-0", "1e1", "+2", "k=2", "  k=3 k=1", "k=02 z", "10", "9", "9.5", "\tb", "a\u{a0}", "aa", "k= 5", "\u{3000}",
 ];
 
+const C06_LONG: &[&str] = &["2", "10", "", "k=3 z"];
+const C07_LONG: &[&str] = &["a", "id=1 x", "", "id=1 y"];
+const C08_LONG: &[&str] = &["abc", "x1y", "", "  xy "];
+
 const C06_DIRS: &[(&str, bool)] = &[
     ("keep-sorted", false),
     ("keep-sorted=\"asc\"", false),
@@ -293,6 +297,8 @@ pub fn run_c06(cfg: &Cfg, sink: &Arc<Sink>) -> Report {
     report.phase(seq_phase("base-alphabet", C06_BASE, depth, cfg, sink, move |lines, sink| c06_check(lines, &c, sink)));
     let c = Arc::clone(&configs);
     report.phase(seq_phase("extended-alphabet (unicode, signed zero, exponent, several matches per line)", C06_EXT, cfg.tier.pick(3, 4), cfg, sink, move |lines, sink| c06_check(lines, &c, sink)));
+    let c = Arc::clone(&configs);
+    report.phase(seq_phase("long blocks over a 4-line alphabet", C06_LONG, cfg.tier.pick(7, 9), cfg, sink, move |lines, sink| c06_check(lines, &c, sink)));
     report
 }
 
@@ -395,6 +401,7 @@ pub fn run_c07(cfg: &Cfg, sink: &Arc<Sink>) -> Report {
         return report;
     }
     report.phase(seq_phase("base-alphabet", C07_BASE, cfg.tier.pick(4, 5), cfg, sink, c07_check));
+    report.phase(seq_phase("long blocks over a 4-line alphabet", C07_LONG, cfg.tier.pick(7, 9), cfg, sink, c07_check));
     report
 }
 
@@ -469,6 +476,7 @@ pub fn run_c08(cfg: &Cfg, sink: &Arc<Sink>) -> Report {
     let mut report = Report::new("states = sequences of content lines; each state is rendered into Python-hosted blocks, one per pattern of {^[a-z]+$, [0-9], ^x, y$, ^\\S+$}; non-trivial = some line is non-blank");
     report.assume("regex crate semantics are trusted for whether a pattern matches a given string");
     report.phase(seq_phase("base-alphabet", C08_BASE, cfg.tier.pick(4, 5), cfg, sink, c08_check));
+    report.phase(seq_phase("long blocks over a 4-line alphabet", C08_LONG, cfg.tier.pick(7, 9), cfg, sink, c08_check));
     report
 }
 
